@@ -165,6 +165,6 @@ def searchTop [LT K] [DecidableLT K] [LE K] [DecidableLE K] [Add K] [Sub K] (cb 
 /-- `find_neighbors_vptree_impl` for one sample -/
 def vpKnn [DecidableEq α] [LT K] [DecidableLT K] [LE K] [DecidableLE K] [Add K] [Sub K] (cb : Cb α K)
     (pop : List (α × K) → List (α × K)) (t : Tree α K) (k : Nat) (i : α) : List α :=
-  removeSelf i (searchTop cb pop t i (k + 1))
+  dropFirstIfLonger k (removeSelf i (searchTop cb pop t i (k + 1)))
 
 end TapkeeVerif.VpTree
